@@ -351,7 +351,8 @@ def run(model, rep, tier):
     txt = src(fl.node)
     rep.check("self.data = {}" in txt, "R-17.4", fl.qualname, where(fl, fl.node), "flush() clears the dict", "flush() does not clear the dict", stmt="flush-all")
     rep.assume("threading.Lock provides mutual exclusion; a single critical section per operation makes each operation atomic")
-    rep.share(model, "C16", {"R-16.3", "R-16.4"}, "R-17.5", "Answer.expiration = time + ChainingResult.minimum_ttl; an overwritten minimum keeps an answer cached after a CNAME in its chain expired")
+    rep.share(model, "C07", {"R-07.6"}, "R-17.6", "the expiration of an answer comes from RRset TTLs minimised in Rdataset.add: a TTL of 0 on a later record must lower it")
+    rep.share(model, "C16", {"R-16.1", "R-16.3", "R-16.4"}, "R-17.5", "Answer.expiration = time + ChainingResult.minimum_ttl; an overwritten minimum keeps an answer cached after a CNAME in its chain expired")
     rep.share(model, "C03", {"R-03.4"}, "R-17.6", "Answer.expiration is computed from the TTLs the wire reader stored", only=lambda o: o.stmt == "ttl-clamp")
     # ------------------------------------------------------------------ R-17.7
     ai = model.func("dns.resolver.Answer.__init__")
